@@ -1,6 +1,7 @@
 import sys
 import os
 import re
+import json
 import inspect
 from loguru import logger
 from logging import StreamHandler
@@ -118,6 +119,12 @@ def n0pretty(
     def indent(indent__ = indent_):
         return "\n" + (" " * (indent__ + 1) * __indent_size) if __indent_size else ""
     # ######################################################################
+    def escape(text: str) -> str:
+        if json_convention:
+            # JSON: quote, backslash and control characters must be escaped inside a string
+            return json.dumps(text, ensure_ascii=False)[1:-1]
+        return text.replace('\"', '\\\"')
+    # ######################################################################
     def is_list_with_pairs(item: list) -> typing.Union[None, dict]:
         element_names = {} # {keyname1: max_len_of_values1, keyname2: max_len_of_values2}
         for sub_item in item:
@@ -201,7 +208,7 @@ def n0pretty(
                                 value_type += "> "
 
                         if isinstance(sub_item_key_value, str):
-                            sub_item_key_value = sub_item_key_value.replace('\"', '\\\"')  # SyntaxError: f-string expression part cannot include a backslash
+                            sub_item_key_value = escape(sub_item_key_value)  # SyntaxError: f-string expression part cannot include a backslash
                             sub_item_result = f"{__quotes}{sub_item_key_value}{__quotes}"
                         else:
                             sub_item_result = str(sub_item_key_value)
@@ -210,7 +217,7 @@ def n0pretty(
                         sub_item_result = f"{value_type}{sub_item_result}".ljust(keys_and_max_len_of_value[key])
 
                         if isinstance(key, str):
-                            key = key.replace('\"', '\\\"')  # SyntaxError: f-string expression part cannot include a backslash
+                            key = escape(key)  # SyntaxError: f-string expression part cannot include a backslash
                             key = f"{__quotes}{key}{__quotes}"
                         else:
                             key = str(key)
@@ -258,6 +265,8 @@ def n0pretty(
                             key_type += f" {len(key)}"
                         key_type += "> "
                     if isinstance(key, str):
+                        if json_convention:
+                            key = escape(key)
                         key = f"{__quotes}{key}{__quotes}"
                     else:
                         key = str(key)
@@ -336,7 +345,7 @@ def n0pretty(
         if auto_quotes and '"' in item and "'" not in item:
                 result = result_type + f"'{item}'"
         else:
-            result = result_type + __quotes + item.replace(__quotes, '\\"' if __quotes == '"' else "\\'") + __quotes
+            result = result_type + __quotes + (escape(item) if json_convention else item.replace(__quotes, '\\"' if __quotes == '"' else "\\'")) + __quotes
     elif item is None:
         if json_convention:
             result = "null"  # json.decoder.JSONDecodeError: Expecting value
